@@ -371,3 +371,16 @@ mut("benign-flags-clear-keep-const-alias", "C04", B, "    pub fn clear_keep(&mut
 mut("benign-awareness-bump-named", "C18", AWF, "                state.data = None;\n                state.clock += 1;\n                true", "                state.data = None;\n                let next = state.clock + 1;\n                state.clock = next;\n                true", "", kind="benign")
 mut("benign-text-remove-arm-order", "C03", "yrs/src/types/text.rs", "                ItemContent::Embed(_) | ItemContent::String(_) | ItemContent::Type(_) => {\n                    let content_len = item.content_len(encoding);\n                    let ptr = pos.right.unwrap();", "                ItemContent::Type(_) | ItemContent::String(_) | ItemContent::Embed(_) => {\n                    let content_len = item.content_len(encoding);\n                    let ptr = pos.right.unwrap();", "", kind="benign")
 mut("benign-siblings-back-named-flag", "C17", "yrs/src/types/xml.rs", "            if let Some(left) = self.current.as_deref() {\n                if !left.is_deleted() {\n                    if let ItemContent::Type(inner) = &left.content {", "            if let Some(left) = self.current.as_deref() {\n                let gone = left.is_deleted();\n                if !gone {\n                    if let ItemContent::Type(inner) = &left.content {", "", kind="benign")
+# ---------------------------------------------------------------- rules added during the seventh seeded round
+mut("splice-gc-becomes-skip", "C08", B, "            Block::Skip(x) => {\n                if offset == 0 {\n                    None\n                } else {\n                    Some(Block::Skip(x.slice(offset)))\n                }\n            }\n            Block::GC(x) => {\n                if offset == 0 {\n                    None\n                } else {\n                    Some(Block::GC(x.slice(offset)))\n                }\n            }",
+    "            Block::Skip(x) | Block::GC(x) => {\n                if offset == 0 {\n                    None\n                } else {\n                    Some(Block::Skip(x.slice(offset)))\n                }\n            }", "merge", also=["C06"])
+mut("clock-range-skip-exclusive-end", "C14", B, "            Block::GC(r) | Block::Skip(r) => (r.clock, r.clock + r.len - 1),", "            Block::GC(r) => (r.clock, r.clock + r.len - 1),\n            Block::Skip(r) => (r.clock, r.clock + r.len),", "lookup")
+mut("clock-range-benign-named", "C14", B, "            Block::GC(r) | Block::Skip(r) => (r.clock, r.clock + r.len - 1),", "            Block::GC(r) | Block::Skip(r) => {\n                let last = r.clock + r.len - 1;\n                (r.clock, last)\n            }", "", kind="benign")
+mut("find-start-open-loop", "C16", IDS, "        while left <= right {\n            let mid = (left + right) / 2;\n            let range = &self.0[mid].0;", "        while left < right {\n            let mid = (left + right) / 2;\n            let range = &self.0[mid].0;", "lookup")
+mut("clock-start-of-last-range", "C18", IDS, "        let r = self.0.first()?;\n        Some(r.0.start)", "        let r = self.0.last()?;\n        Some(r.0.start)", "state-vector", also=["C06"])
+mut("picker-stops-on-absent-queue", "C02", U, "                    self.latest = self.store.clients.remove_entry(&next);", "                    let entry = self.store.clients.remove_entry(&next)?;\n                    self.latest = Some(entry);", "C02.b4")
+mut("options-encoding-as-number", "C09", "yrs/src/doc.rs", "        m.insert(\"encoding\".to_owned(), Any::BigInt(encoding));", "        m.insert(\"encoding\".to_owned(), Any::from(encoding));", "block-wire")
+mut("text-push-at-block-length", "C03", "yrs/src/types/text.rs", "        let idx = self.len(txn);\n        self.insert(txn, idx, chunk)", "        let idx = self.as_ref().len();\n        self.insert(txn, idx, chunk)", "text-units")
+mut("visited-shared-between-changed-types", "C11", T, "                        &mut HashSet::default(),", "                        &mut visited,", None, kind="benign-skip")
+mut("blocks-cursor-jumps-two", "C12", "yrs/src/id_set.rs", "                    self.current_index = Some(idx + 1);\n                    block", "                    self.current_index = Some(idx + 2);\n                    block", "delete-set")
+mut("blocks-cursor-benign-named", "C12", "yrs/src/id_set.rs", "                    self.current_index = Some(idx + 1);\n                    block", "                    let following = idx + 1;\n                    self.current_index = Some(following);\n                    block", "", kind="benign")
